@@ -1,6 +1,8 @@
 //@ assume: decided here: the position arithmetic of segment identifiers (a full segment is exactly one complete subtree of height `height` whose first leaf is leaf idx*2^height; a partial last segment ends at mmr_size-1) for identifiers with height <= 62 and idx*2^height < 2^62; soundness of segment validation against tampering is a bounded Kani unit; assembly order, prunable segments with a bitmap (FFI) and the archive path are outside (DESIGN 6 C16)
+//@ assume: 64-bit target
 //@ assumed_items: 0
-//@ fns: SegmentIdentifier::segment_capacity, SegmentIdentifier::leaf_offset, SegmentIdentifier::segment_unpruned_size, SegmentIdentifier::full_segment, SegmentIdentifier::segment_pos_range
+//@ fns: SegmentIdentifier::segment_capacity, SegmentIdentifier::leaf_offset, SegmentIdentifier::segment_unpruned_size, SegmentIdentifier::full_segment, SegmentIdentifier::segment_pos_range, SegmentIdentifier::count_segments_required
+global size_of usize == 8;
 //@ include: ../C07/pmmr_arith.verus.rs
 
 // leaf index arithmetic of aligned blocks: n = a * 2^h, j < 2^h
@@ -156,6 +158,18 @@ impl SegmentIdentifier {
 //@+        assert(leaf_pos(n, 64) == leaf_pos(n, 63));
 //@+        lemma_leafpos_inv(n, 64);
 //@+    }
+//@ end
+
+//@ extract core/src/core/pmmr/segment.rs :: impl SegmentIdentifier::count_segments_required
+//@   rewrite `pmmr::n_leaves(` => `n_leaves(`
+//@   requires:
+//@+    segment_height <= 62, target_mmr_size < 0x4000_0000_0000_0000u64,
+//@   ensures:
+//@+    r as int == (lb(target_mmr_size as nat, 64) + pow2(segment_height as nat) - 1) / (pow2(segment_height as nat) as int),
+//@   at_start:
+//@+    proof { lemma_shl2(segment_height as u64); lemma_psize(64); lemma2_to64(); lemma_pow2_unfold(64); lemma_pow2_unfold(63);
+//@+            lemma_lb_le(target_mmr_size as nat, 64); lemma_pow2_pos(segment_height as nat);
+//@+            if segment_height < 62 { lemma_pow2_strictly_increases(segment_height as nat, 62); } }
 //@ end
 }
 //@ canary segment_pos_range: r.1 == r.0
